@@ -20,7 +20,7 @@ func init() {
 		ID:    "R-DELIM",
 		Doc:   "typestate over every container loop of json (parseArray/parseObject and the decode* loops): an element/key is consumed only after '[' '{' or ','; a value only after ':'; ',' is accepted only after an element; the first element is consumed only after the closing delimiter was tested; the first-iteration idiom (i != 0, s.len != 0, range index) is followed path-sensitively",
 		Props: []string{"C02", "C05"},
-		Min:   map[string]int{"C02": 12, "C05": 12},
+		Min:   map[string]int{"C02": 11, "C05": 11},
 		Run:   runDelim,
 	})
 }
